@@ -56,10 +56,10 @@ NATIVE = {
         functions=['ElfSection::name / string_table: "names resolve through the string-table entry the tag designates" (reads memory outside the tag: outside the Verus memory model; Kani loses the object of an integer-to-pointer cast)']),
     'n_hdr_getters_many_tags': dict(crate='multiboot2-header', file='header.rs', props=['C11', 'C12'],
         bound='10 getter kinds x {0,1,2,5,9..13,20,40,100,600,1100} filler tags (other kinds, cycling) x wanted kind present twice / absent (280 headers, up to ~16 KiB); every getter compared with the first tag of its type in the walk',
-        functions=['Multiboot2Header::get_tag and the ten typed getters beyond the Kani region sizes (Iterator::find with a closure is outside this Verus)']),
+        functions=['Multiboot2Header::get_tag and the ten typed getters beyond the Kani region sizes, on compiled code (cross-check of the Verus proof, which rewrites Iterator::find to the tagiter_find glue)']),
     'n_mbi_getters_many_tags': dict(crate='multiboot2', file='boot_information.rs', props=['C04', 'C03', 'C17'],
         bound='20 getter kinds x {0,1,2,7,8,9,19..23,40,100,1100} filler tags x wanted kind present twice / absent, EFI map vs boot-services tag in both orders with 0/1/30 fillers, module iterator with 0/3/25 modules (572 regions); every getter compared with the first tag of its type in the walk',
-        functions=['BootInformation::get_tag and all typed getters, efi_memory_map_tag rule, module_tags beyond the Kani region sizes (Iterator::find / filter with closures are outside this Verus)']),
+        functions=['BootInformation::get_tag and all typed getters, efi_memory_map_tag rule, module_tags beyond the Kani region sizes, on compiled code (cross-check of the Verus proof, which rewrites Iterator::find to the tagiter_find glue; framebuffer_tag and elf_sections() are not under a Verus contract of their own)']),
     'n_ctor_large_contents': dict(crate='multiboot2', file='tag.rs', props=['C07', 'C16', 'C17'],
         bound='variable-length constructors with LARGE contents: strings of 0..=40, 63..65, 127, 128, 255..257, 300 bytes (cmdline, boot loader name, module); palettes of 0..65535 colours; network / SMBIOS / ELF / EFI-map payloads of 0..70000 bytes; 0..3000 memory areas (217 cases); byte image vs. the specification encoding, accessors read back',
         functions=['CommandLineTag::new', 'BootLoaderNameTag::new', 'ModuleTag::new', 'FramebufferTag::new + FramebufferType::serialize', 'NetworkTag::new', 'SmbiosTag::new', 'ElfSectionsTag::new', 'EFIMemoryMapTag::new_from_map', 'MemoryMapTag::new', 'new_boxed (large totals)']),
@@ -321,6 +321,7 @@ for _pid, _p in PROPS.items():
             if _h not in _p['k_quick']:
                 _p['k_quick'].append(_h)
 
+FIND_TRUST = 'contracts/verus/find_glue.rs: core::iter::Iterator::find(pred) on TagIter is `call next until pred accepts an item` (TRUSTED statement about the standard library: find = try_fold(check(pred)), default try_fold = while-let over next; the extraction fails with anchor-lost if `impl Iterator for TagIter` defines anything but `next`); the loop itself (tagiter_find) is verified against the contract of the extracted TagIter::next; closures of the getters carry spliced requires/ensures headers (rule Rcl), their bodies are verbatim'
 PRELUDE_TRUST = [
     'contracts/verus/prelude.rs: pointer-extent model (assume_specification of <[T]>::as_ptr, <*const T>::{add,sub,cast,align_offset}, NonNull::{new,as_ptr}, cast_const/cast_mut; external_body deref_raw, read_raw, addr_of_ref, slice::from_raw_parts, bytes_from_raw_parts, vslice, vslice_from, mem::size_of_val, controlled_panic)',
     'uninterpreted decode::<T>(bytes): value of a sized object as a function of its bytes (concrete little-endian decodings are checked by engine K on the compiled layout)',
@@ -330,6 +331,8 @@ PRELUDE_TRUST = [
 ]
 
 EXTRA_TRUST = {
+    'C04': [FIND_TRUST, 'prelude: assume_specification of Option::map_or_else (None -> default(), Some(x) -> f(x))'],
+    'C11': [FIND_TRUST, 'derive(PartialEq) on the field-less enum HeaderTagType is equality of variants (PartialEqSpecImpl written in hdr_core.rs)'],
     'C14': ['DynSizedStructure::{header,payload} field projections are external_body in V (address facts of &self.field); proved on compiled code by k_dyn_layout / k_ref_from_slice',
             'ptr_meta::from_raw_parts = (address, metadata) pair; deref_dst describes size_of_val by MaybeDynSized::layout_size (checked by k_dyn_layout for DynSizedStructure)'],
 }
@@ -385,7 +388,22 @@ PROPS['C04']['v'] = [('u_mb2_fb', ['FramebufferTypeId::try_from', 'FramebufferTa
                      ('u_mb2_dstlen', ['MemoryMapTag::entry_size', 'MemoryMapTag::entry_version', 'MemoryMapTag::memory_areas',
                                        'SmbiosTag::major', 'SmbiosTag::minor', 'SmbiosTag::tables',
                                        'ModuleTag::start_address', 'ModuleTag::end_address', 'ModuleTag::cmdline',
-                                       'CommandLineTag::cmdline', 'BootLoaderNameTag::name'])]
+                                       'CommandLineTag::cmdline', 'BootLoaderNameTag::name',
+                                       # first sentence of C04: "each typed getter returns the first tag in walk order whose type
+                                       # number matches (and nothing when there is none)"; EFI memory map withholding rule
+                                       'BootInformation::get_tag', 'BootInformation::tags', 'BootInformation::command_line_tag',
+                                       'BootInformation::boot_loader_name_tag', 'BootInformation::memory_map_tag', 'BootInformation::elf_sections_tag',
+                                       'BootInformation::smbios_tag', 'BootInformation::network_tag', 'BootInformation::efi_bs_not_exited_tag',
+                                       'BootInformation::efi_memory_map_tag', 'BootInformation::module_tags', 'module_iter', 'ModuleIter::next',
+                                       'tagiter_find', 'tagiter_find_owned', 'TagIter::next', 'DynSizedStructure::cast', 'EFIBootServicesNotExitedTag::dst_len',
+                                       'TagHeader::payload_len', 'DynSizedStructure::ref_from_slice', 'DynSizedStructure::ref_from_bytes']),
+                     # the getters of the eleven fixed-size kinds (hosted in the builder unit, which extracts every fixed-size kind)
+                     ('u_mb2_builder', ['BootInformation::get_tag', 'BootInformation::tags', 'BootInformation::basic_memory_info_tag',
+                                        'BootInformation::bootdev_tag', 'BootInformation::vbe_info_tag', 'BootInformation::apm_tag',
+                                        'BootInformation::efi_sdt32_tag', 'BootInformation::efi_sdt64_tag', 'BootInformation::rsdp_v1_tag',
+                                        'BootInformation::rsdp_v2_tag', 'BootInformation::efi_ih32_tag', 'BootInformation::efi_ih64_tag',
+                                        'BootInformation::load_base_addr_tag', 'tagiter_find', 'tagiter_find_owned', 'TagIter::next',
+                                        'DynSizedStructure::cast'])]
 # C07: the byte-slice constructors are proved for ALL content lengths from the (assumed, C16) contract of new_boxed;
 # fixed-size constructors: Kani full-domain; string / framebuffer constructors: Kani-bounded + native stand-in
 PROPS.setdefault('C07', dict(v=[], k_quick=[], k_thorough=[]))
@@ -398,15 +416,22 @@ PROPS.setdefault('C11', dict(v=[], k_quick=[], k_thorough=[]))
 PROPS['C11']['v'] = [('u_hdr_core', ['Multiboot2Header::iter', 'Multiboot2Header::verify_checksum', 'Multiboot2Header::header_magic',
                                      'Multiboot2Header::arch', 'Multiboot2Header::length', 'Multiboot2Header::checksum', 'Multiboot2Header::calc_checksum',
                                      'Multiboot2BasicHeader::arch', 'TagIter::new', 'TagIter::next', 'walk_collect', 'HeaderTagHeader::payload_len',
-                                     'Multiboot2BasicHeader::length', 'Multiboot2BasicHeader::header_magic', 'Multiboot2BasicHeader::checksum'])]
+                                     'Multiboot2BasicHeader::length', 'Multiboot2BasicHeader::header_magic', 'Multiboot2BasicHeader::checksum']),
+                     # "each typed getter returns the first tag in walk order whose type matches, and nothing when there is none"
+                     ('u_hdr_builder', ['Multiboot2Header::get_tag', 'Multiboot2Header::iter', 'Multiboot2Header::information_request_tag',
+                                        'Multiboot2Header::address_tag', 'Multiboot2Header::entry_address_tag', 'Multiboot2Header::entry_address_efi32_tag',
+                                        'Multiboot2Header::entry_address_efi64_tag', 'Multiboot2Header::console_flags_tag', 'Multiboot2Header::framebuffer_tag',
+                                        'Multiboot2Header::module_align_tag', 'Multiboot2Header::efi_boot_services_tag', 'Multiboot2Header::relocatable_tag',
+                                        'HeaderTagHeader::typ', 'tagiter_find', 'tagiter_find_owned', 'TagIter::next', 'DynSizedStructure::cast',
+                                        '*HeaderTag::dst_len', 'HeaderTagHeader::payload_len', 'DynSizedStructure::ref_from_slice', 'DynSizedStructure::ref_from_bytes'])]
 PROPS['C13']['explanation'] = 'Bounded contract check: Kani explores the real find_header on every buffer length 0..=48 and every content (unwinding assertions on) against the oracle transcribed from the statement (first occurrence of the little-endian magic, alignment, truncation, returned sub-slice identical in address and length; total: any panic is a failure). The 8192-byte search-window clause is out of reach of both verifiers (unwinding 8189 window iterations in CBMC; Iterator::position cannot be specified in this Verus): for that clause a BOUNDED NATIVE stand-in runs the real function on 1464 enumerated cases around the limit (labelled bounded-native, never counted as proved).'
 PROPS['C16']['explanation'] = 'Clone clause: proof -- Verus verifies the verbatim clone_dyn generically for every structure kind and ALL sizes (same header, same padded size, same bytes up to the declared size) from the contract of new_boxed and the proved contracts of header() / payload() / payload_len; the per-kind set_size / dst_len / BASE_SIZE implementations are proved too. Construction clause: bounded contract check -- Kani verifies new_boxed on the compiled code for 0..=3 content slices of 0..=5 symbolic bytes each (header size field = 8 + total, header || content without gaps, size_of_val = total rounded up to 8, 8-aligned allocation, Kani`s allocator model checks that Box drop deallocates with the allocation`s layout) and clone_dyn for every declared size 8..=17 (every padding residue): same declared size, same bytes. This contract is what C06/C07/C12 assume in Verus.'
 PROPS['C17']['explanation'] = 'Extent ("never looks past the declared size") follows from the proved dst_len contracts of C05 (Verus, all sizes). String semantics are core-library loops outside Verus: Kani checks parse_slice_as_string for EVERY byte string of length 0..=6 (all 256 values per position) against an independent UTF-8 validator and first-NUL oracle, and the three string-tag constructors / parsers for bounded lengths (every padding residue, NUL in padding or next tag => MissingNul).'
 
 MANIFEST_TEXT = {
     'C11': dict(
-        text='Proof on compiled code: for each of the 11 header-tag kinds and the basic header a loop-free Kani harness over ALL bytes of the tag (type / flags / size constrained to valid specification values) proves every accessor equal to the little-endian value at the specified offset; the tag walk from offset 16 in steps of size rounded up to 8 is proved generically in Verus (TagIter::next contract + walk_collect, instantiated for HeaderTagHeader through the Header trait contract) and Multiboot2Header::iter is proved to pass exactly [16, length). First-match getters and information-request lists are bounded harnesses (regions of 32/40/48 bytes; n <= 4).',
-        note='Enumerated fields restricted to defined values (statement precondition). get_tag uses Iterator::find: bounded.',
+        text='Proof on compiled code: for each of the 11 header-tag kinds and the basic header a loop-free Kani harness over ALL bytes of the tag (type / flags / size constrained to valid specification values) proves every accessor equal to the little-endian value at the specified offset; the tag walk from offset 16 in steps of size rounded up to 8 is proved generically in Verus (TagIter::next contract + walk_collect, instantiated for HeaderTagHeader through the Header trait contract) and Multiboot2Header::iter is proved to pass exactly [16, length). First-match selection is proved in Verus for ALL regions: get_tag and the ten typed getters are verified verbatim against `the typed view of the first tag of the C03 walk whose type number is <the specification`s literal>, None iff the walk has no such tag` (Iterator::find is rewritten to tagiter_find, a loop over the verified TagIter::next: rule Rfind); bounded Kani harnesses (regions of 32/40/48 bytes) and a native stand-in re-check it on compiled code. Information-request lists: bounded harnesses (n <= 4) plus native stand-in.',
+        note='Enumerated fields restricted to defined values (statement precondition). TRUSTED for the getter proof: core`s Iterator::find = `call next until the predicate accepts` for an iterator that overrides neither find nor try_fold (TagIter is extracted with `onlyfns next`); derive(PartialEq) on HeaderTagType is variant equality.',
     ),
     'C13': dict(
         text=PROPS['C13']['explanation'],
@@ -428,8 +453,8 @@ MANIFEST_TEXT = {
         note='Trusted: pointer-extent prelude; allocation-level provenance (Stacked/Tree Borrows not modelled); references are identified with their values in the spec logic (two distinct objects with equal contents are conflated); field-projection layout facts (efi_tag_wf / elf_tag_wf / fb_tag_wf, DynSizedStructure::{header,payload}) are assumed in V and checked by Kani where Kani can compile the type (not ElfSectionsTag: Kani ICE). Debug formatters are safe compositions of these functions (not run under a verifier). ELF section names read an external address (excluded by the statement). Known finding: VBEModeInfo.memory_model enum-typed field.',
     ),
     'C04': dict(
-        text='Proof on compiled code: for every fixed-size tag kind a loop-free Kani harness over ALL bytes of the tag (type/size words fixed to the specification values) obtains the typed view through the real ref_from_slice + cast and proves every accessor equal to the little-endian value at the specified offset and width (including all VBE control/mode fields over 784 symbolic bytes, MemoryArea entries, RSDP fields and checksum validity); the framebuffer type byte classification is proved for all 256 values in V and K. First-match selection and variable-length kinds are bounded harnesses (labelled).',
-        note='Oracle = Multiboot2 specification offsets written independently in the harnesses. Kani checks dev-profile semantics; invalid enum reads are not visible to Kani (see C08 O2). get_tag uses Iterator::find (outside Verus): first-match is bounded (region <= 64 bytes).',
+        text='Proof on compiled code: for every fixed-size tag kind a loop-free Kani harness over ALL bytes of the tag (type/size words fixed to the specification values) obtains the typed view through the real ref_from_slice + cast and proves every accessor equal to the little-endian value at the specified offset and width (including all VBE control/mode fields over 784 symbolic bytes, MemoryArea entries, RSDP fields and checksum validity); the framebuffer type byte classification is proved for all 256 values in V and K. First-match selection is proved in Verus for ALL regions: get_tag, the typed getters of the dynamically sized kinds, efi_bs_not_exited_tag, efi_memory_map_tag (withheld iff a type-18 tag is in the walk) and ModuleIter::next are verified verbatim against `the typed view of the first tag of the C03 walk whose type number is <the specification`s literal>, None iff there is none` (Iterator::find is rewritten to tagiter_find, a loop over the verified TagIter::next: rule Rfind). The getters of the eleven fixed-size kinds are proved the same way (builder unit). Not under a Verus contract: framebuffer_tag (get_tag + buffer_type are each proved, their one-line composition needs the assumed field-projection layout fb_tag_wf) and the deprecated elf_sections(); these and the variable-length decoders are re-checked by bounded Kani harnesses and native stand-ins (labelled).',
+        note='Oracle = Multiboot2 specification offsets written independently in the harnesses. Kani checks dev-profile semantics; invalid enum reads are not visible to Kani (see C08 O2). TRUSTED for the getter proof: core`s Iterator::find = `call next until the predicate accepts` for an iterator that overrides neither find nor try_fold (TagIter / ModuleIter are extracted with `onlyfns next`); Option::map_or_else specification (prelude).',
     ),
     'C05': dict(
         text='Proof: Verus verifies the verbatim dst_len of all 9 dynamically sized boot-information tag kinds, of DynSizedStructure and of InformationRequestHeaderTag against per-kind contracts whose fixed offset and element size are literals from the specification: on normal return size >= fixed part, (size - fixed) % element == 0 and the count is (size - fixed) / element; the BASE_SIZE constants are proved equal to the specified fixed offsets. That the exposed slice starts at the fixed offset of the compiled layout is checked by bounded Kani harnesses per kind.',
@@ -449,7 +474,7 @@ MANIFEST_TEXT = {
     ),
     'C09': dict(
         text='Proof by encapsulation as C01 for the header crate: Multiboot2Header::load (total), iter, HeaderTagHeader / Multiboot2BasicHeader payload_len, and the generic multiboot2-common units instantiated through the Header trait contract, verified by Verus for all lengths, tag sizes and contents.',
-        note='Enumerated fields are assumed to hold defined values (the statement`s precondition); see C08 O2 for what happens otherwise. Typed getters use Iterator::find: bounded Kani harnesses.',
+        note='Enumerated fields are assumed to hold defined values (the statement`s precondition); see C08 O2 for what happens otherwise. Typed getters: proved under C11 (tagiter_find glue), plus bounded Kani harnesses.',
     ),
     'C10': dict(
         text='Proof: Verus verifies the verbatim Multiboot2Header::load in TOTAL mode for all header words with the statement`s exact acceptance condition and error precedence, and calc_checksum for ALL magic / both architectures / ALL lengths: the result satisfies the congruence and is the unique such value; verify_checksum is equivalent to the congruence.',
